@@ -264,6 +264,29 @@ def close_body(ctx):
     return hits
 
 
+def slot_refills(ctx, fld):
+    """places outside the constructor where something other than None is stored into the
+    Option slot held by field `fld`"""
+    A = ctx.A
+    refills = []
+    ctor_body = A.ctor[0]
+    for b in ctx.prog.bodies:
+        if b.path == ctor_body.path:
+            continue
+        bp = ctx.prog.bp(b)
+        for bi in ctx.prog.cfg(b).nodes():
+            for si, st in enumerate(b.blocks[bi]["stmts"]):
+                if st["k"] == "assign" and st["place"]["p"] and st["place"]["p"][0].get("k") == "deref" and len(st["place"]["p"]) == 1:
+                    lt = bp.local_term(st["place"]["l"], bi, si)
+                    if any(x[0] == "field" and x[2] == fld for x in subterms(lt)) and not (st["rv"]["k"] == "agg" and str(st["rv"].get("variant")) == "None"):
+                        refills.append(ctx.where(b, bi, si))
+        for s_ in ctx.prog.sites(b):
+            if s_.ck in ("std::option::Option::insert", "std::option::Option::replace", "std::option::Option::get_or_insert", "std::option::Option::get_or_insert_with") and s_.term["args"]:
+                if any(x[0] == "field" and x[2] == fld for x in subterms(bp.arg_term(s_.bb, 0))):
+                    refills.append(s_.where)
+    return refills
+
+
 def q4_close(ctx, rep):
     A = ctx.A
     R = "Q4"
@@ -302,22 +325,7 @@ def q4_close(ctx, rep):
     # closed is final: outside the constructor nothing puts a sender (back) into the slot - a
     # `*slot = Some(tx)` "so that close can be retried" keeps the channel connected after the
     # Exit marker was rejected, and the consumer then waits forever
-    refills = []
-    ctor_body = A.ctor[0]
-    for b in ctx.prog.bodies:
-        if b.path == ctor_body.path:
-            continue
-        bp = ctx.prog.bp(b)
-        for bi in ctx.prog.cfg(b).nodes():
-            for si, st in enumerate(b.blocks[bi]["stmts"]):
-                if st["k"] == "assign" and st["place"]["p"] and st["place"]["p"][0].get("k") == "deref" and len(st["place"]["p"]) == 1:
-                    lt = bp.local_term(st["place"]["l"], bi, si)
-                    if any(x[0] == "field" and x[2] == A.f_tx for x in subterms(lt)) and not (st["rv"]["k"] == "agg" and str(st["rv"].get("variant")) == "None"):
-                        refills.append(ctx.where(b, bi, si))
-        for s_ in ctx.prog.sites(b):
-            if s_.ck in ("std::option::Option::insert", "std::option::Option::replace", "std::option::Option::get_or_insert", "std::option::Option::get_or_insert_with") and s_.term["args"]:
-                if any(x[0] == "field" and x[2] == A.f_tx for x in subterms(bp.arg_term(s_.bb, 0))):
-                    refills.append(s_.where)
+    refills = slot_refills(ctx, A.f_tx)
     rep.check(not refills, R, "sender-slot-never-refilled", refills[0] if refills else "", "outside the constructor no code stores a sender into the slot", "the sender slot is written outside the constructor (%s): a closed store can become open again / stay connected" % refills[:2])
     # every enqueue of the Exit marker is dominated by the take in the same body (or under lock)
     n = 0
